@@ -62,7 +62,8 @@ class Rec:
         e = {n: self.call(n) for n in OPAQUE}
         e["panic"] = self.panic
         # native readings of the array constructor and of the two array helpers of the corpus header (lib/e4_corpus.HEADER)
-        e["array"] = lambda *a: list(a)
+        import types as _types
+        e["array"] = lambda *a: list(a[0]) if len(a) == 1 and isinstance(a[0], _types.GeneratorType) else list(a)
         e["mk3"] = lambda a: [e["f"](a), a + 1, a + 2]
 
         def bump(xs, i):
